@@ -1028,6 +1028,11 @@ type swamp struct {
 
 	valueBeaconASC  beacon.Beacon // ordered list of the Treasures by the ascendant Value field
 	valueBeaconDESC beacon.Beacon // ordered list of the Treasures by the descendant Value field
+	// valueBeaconType is the value type (BeaconTypeValue*) the shared value beacons are currently
+	// built for. The pair is rebuilt when an index of another value type is requested, and the
+	// incremental maintenance re-sorts it with this type's comparator.
+	valueBeaconMu   sync.Mutex
+	valueBeaconType BeaconType
 
 	// -------------------  the following fields are used for the unordered list -------------------
 	// treasuresWaitingForWriter just the key of the treasures that are waiting for the writer to write them to the chroniclerInterface
@@ -2038,7 +2043,7 @@ func (s *swamp) GetBeacon(beaconType BeaconType, order BeaconOrder) beacon.Beaco
 		}
 		return s.updateTimeBeaconDESC
 	case BeaconTypeValueInt64, BeaconTypeValueFloat64, BeaconTypeValueString:
-		s.buildBeacon(s.valueBeaconASC, s.valueBeaconDESC, BeaconTypeValueInt64)
+		s.buildValueBeacon(beaconType)
 		if order == IndexOrderAsc {
 			return s.valueBeaconASC
 		}
@@ -2652,7 +2657,7 @@ func (s *swamp) CloneAndDeleteMatchingTreasures(beaconType BeaconType, order Bea
 	case BeaconTypeValueUint8, BeaconTypeValueUint16, BeaconTypeValueUint32, BeaconTypeValueUint64,
 		BeaconTypeValueInt8, BeaconTypeValueInt16, BeaconTypeValueInt32, BeaconTypeValueInt64,
 		BeaconTypeValueFloat32, BeaconTypeValueFloat64, BeaconTypeValueString:
-		s.buildBeacon(s.valueBeaconASC, s.valueBeaconDESC, beaconType)
+		s.buildValueBeacon(beaconType)
 	default:
 		return nil, false, errors.New("unsupported beacon type for ShiftMatching")
 	}
@@ -3061,7 +3066,7 @@ func (s *swamp) findInExpirationTimeBeacon(order BeaconOrder, from int32, limit 
 // findInValueBeacon - find the treasures in the valueIntBeaconASC or valueIntBeaconDESC slice
 // Build the two indexes if they are not exists or the indexes are empty
 func (s *swamp) findInValueBeacon(order BeaconOrder, bc BeaconType, from int32, limit int32) ([]treasure.Treasure, error) {
-	s.buildBeacon(s.valueBeaconASC, s.valueBeaconDESC, bc)
+	s.buildValueBeacon(bc)
 	switch order {
 	case IndexOrderAsc:
 		return s.valueBeaconASC.GetManyFromOrderPosition(&beacon.OrderPosition{
@@ -3115,7 +3120,143 @@ func (s *swamp) treasuresForBeacon(bc BeaconType) map[string]treasure.Treasure {
 		}
 		return filtered
 	default:
+		// Value indexes hold only the treasures whose content is of the indexed type:
+		// the typed comparators have no order for any other content.
+		if ct, ok := valueBeaconContentType(bc); ok {
+			filtered := make(map[string]treasure.Treasure, len(all))
+			for k, t := range all {
+				if t.GetContentType() == ct {
+					filtered[k] = t
+				}
+			}
+			return filtered
+		}
 		return all
+	}
+}
+
+// valueBeaconContentType maps a value index type to the content type it indexes.
+func valueBeaconContentType(bc BeaconType) (treasure.ContentType, bool) {
+	switch bc {
+	case BeaconTypeValueUint8:
+		return treasure.ContentTypeUint8, true
+	case BeaconTypeValueUint16:
+		return treasure.ContentTypeUint16, true
+	case BeaconTypeValueUint32:
+		return treasure.ContentTypeUint32, true
+	case BeaconTypeValueUint64:
+		return treasure.ContentTypeUint64, true
+	case BeaconTypeValueInt8:
+		return treasure.ContentTypeInt8, true
+	case BeaconTypeValueInt16:
+		return treasure.ContentTypeInt16, true
+	case BeaconTypeValueInt32:
+		return treasure.ContentTypeInt32, true
+	case BeaconTypeValueInt64:
+		return treasure.ContentTypeInt64, true
+	case BeaconTypeValueFloat32:
+		return treasure.ContentTypeFloat32, true
+	case BeaconTypeValueFloat64:
+		return treasure.ContentTypeFloat64, true
+	case BeaconTypeValueString:
+		return treasure.ContentTypeString, true
+	default:
+		return treasure.ContentTypeVoid, false
+	}
+}
+
+// buildValueBeacon builds the shared value beacons for the requested value type. The pair can
+// serve one value type at a time: if it was built for another type it is reset and rebuilt.
+func (s *swamp) buildValueBeacon(bc BeaconType) {
+	s.valueBeaconMu.Lock()
+	if s.valueBeaconType != bc {
+		s.valueBeaconASC.Reset()
+		s.valueBeaconDESC.Reset()
+		s.valueBeaconType = bc
+	}
+	s.valueBeaconMu.Unlock()
+	s.buildBeacon(s.valueBeaconASC, s.valueBeaconDESC, bc)
+}
+
+// sortBeacon sorts the ordered slice of the beacon by the attribute of the index type.
+func sortBeacon(b beacon.Beacon, bc BeaconType, order BeaconOrder) error {
+	asc := order == IndexOrderAsc
+	switch bc {
+	case BeaconTypeCreationTime:
+		if asc {
+			return b.SortByCreationTimeAsc()
+		}
+		return b.SortByCreationTimeDesc()
+	case BeaconTypeUpdateTime:
+		if asc {
+			return b.SortByUpdateTimeAsc()
+		}
+		return b.SortByUpdateTimeDesc()
+	case BeaconTypeExpirationTime:
+		if asc {
+			return b.SortByExpirationTimeAsc()
+		}
+		return b.SortByExpirationTimeDesc()
+	case BeaconTypeValueUint8:
+		if asc {
+			return b.SortByValueUint8ASC()
+		}
+		return b.SortByValueUint8DESC()
+	case BeaconTypeValueUint16:
+		if asc {
+			return b.SortByValueUint16ASC()
+		}
+		return b.SortByValueUint16DESC()
+	case BeaconTypeValueUint32:
+		if asc {
+			return b.SortByValueUint32ASC()
+		}
+		return b.SortByValueUint32DESC()
+	case BeaconTypeValueUint64:
+		if asc {
+			return b.SortByValueUint64ASC()
+		}
+		return b.SortByValueUint64DESC()
+	case BeaconTypeValueInt8:
+		if asc {
+			return b.SortByValueInt8ASC()
+		}
+		return b.SortByValueInt8DESC()
+	case BeaconTypeValueInt16:
+		if asc {
+			return b.SortByValueInt16ASC()
+		}
+		return b.SortByValueInt16DESC()
+	case BeaconTypeValueInt32:
+		if asc {
+			return b.SortByValueInt32ASC()
+		}
+		return b.SortByValueInt32DESC()
+	case BeaconTypeValueInt64:
+		if asc {
+			return b.SortByValueInt64ASC()
+		}
+		return b.SortByValueInt64DESC()
+	case BeaconTypeValueFloat32:
+		if asc {
+			return b.SortByValueFloat32ASC()
+		}
+		return b.SortByValueFloat32DESC()
+	case BeaconTypeValueFloat64:
+		if asc {
+			return b.SortByValueFloat64ASC()
+		}
+		return b.SortByValueFloat64DESC()
+	case BeaconTypeValueString:
+		if asc {
+			return b.SortByValueStringASC()
+		}
+		return b.SortByValueStringDESC()
+	default:
+		if asc {
+			return b.SortByKeyAsc()
+		}
+		return b.SortByKeyDesc()
 	}
 }
 
@@ -3129,41 +3270,7 @@ func (s *swamp) buildBeacon(beaconASC beacon.Beacon, beaconDESC beacon.Beacon, b
 	if !beaconASC.IsInitialized() {
 		beaconASC.SetInitialized(true)
 		beaconASC.PushManyFromMap(s.treasuresForBeacon(bc))
-		var err error
-		switch bc {
-		case BeaconTypeCreationTime:
-			err = beaconASC.SortByCreationTimeAsc()
-		case BeaconTypeUpdateTime:
-			err = beaconASC.SortByUpdateTimeAsc()
-		case BeaconTypeExpirationTime:
-			err = beaconASC.SortByExpirationTimeAsc()
-		case BeaconTypeValueUint8:
-			err = beaconASC.SortByValueUint8ASC()
-		case BeaconTypeValueUint16:
-			err = beaconASC.SortByValueUint16ASC()
-		case BeaconTypeValueUint32:
-			err = beaconASC.SortByValueUint32ASC()
-		case BeaconTypeValueUint64:
-			err = beaconASC.SortByValueUint64ASC()
-		case BeaconTypeValueInt8:
-			err = beaconASC.SortByValueInt8ASC()
-		case BeaconTypeValueInt16:
-			err = beaconASC.SortByValueInt16ASC()
-		case BeaconTypeValueInt32:
-			err = beaconASC.SortByValueInt32ASC()
-		case BeaconTypeValueInt64:
-			err = beaconASC.SortByValueInt64ASC()
-		case BeaconTypeValueFloat32:
-			err = beaconASC.SortByValueFloat32ASC()
-		case BeaconTypeValueFloat64:
-			err = beaconASC.SortByValueFloat64ASC()
-		case BeaconTypeValueString:
-			err = beaconASC.SortByValueStringASC()
-		case BeaconTypeKey:
-			err = beaconASC.SortByKeyAsc()
-		default:
-			err = beaconASC.SortByKeyAsc()
-		}
+		err := sortBeacon(beaconASC, bc, IndexOrderAsc)
 		if err != nil {
 			beaconASC.SetInitialized(false)
 			slog.Error("failed to sort keyBeaconASC", "error", err)
@@ -3173,41 +3280,7 @@ func (s *swamp) buildBeacon(beaconASC beacon.Beacon, beaconDESC beacon.Beacon, b
 	if !beaconDESC.IsInitialized() {
 		beaconDESC.SetInitialized(true)
 		beaconDESC.PushManyFromMap(s.treasuresForBeacon(bc))
-		var err error
-		switch bc {
-		case BeaconTypeCreationTime:
-			err = beaconDESC.SortByCreationTimeDesc()
-		case BeaconTypeUpdateTime:
-			err = beaconDESC.SortByUpdateTimeDesc()
-		case BeaconTypeExpirationTime:
-			err = beaconDESC.SortByExpirationTimeDesc()
-		case BeaconTypeValueUint8:
-			err = beaconDESC.SortByValueUint8DESC()
-		case BeaconTypeValueUint16:
-			err = beaconDESC.SortByValueUint16DESC()
-		case BeaconTypeValueUint32:
-			err = beaconDESC.SortByValueUint32DESC()
-		case BeaconTypeValueUint64:
-			err = beaconDESC.SortByValueUint64DESC()
-		case BeaconTypeValueInt8:
-			err = beaconDESC.SortByValueInt8DESC()
-		case BeaconTypeValueInt16:
-			err = beaconDESC.SortByValueInt16DESC()
-		case BeaconTypeValueInt32:
-			err = beaconDESC.SortByValueInt32DESC()
-		case BeaconTypeValueInt64:
-			err = beaconDESC.SortByValueInt64DESC()
-		case BeaconTypeValueFloat32:
-			err = beaconDESC.SortByValueFloat32DESC()
-		case BeaconTypeValueFloat64:
-			err = beaconDESC.SortByValueFloat64DESC()
-		case BeaconTypeValueString:
-			err = beaconDESC.SortByValueStringDESC()
-		case BeaconTypeKey:
-			err = beaconDESC.SortByKeyDesc()
-		default:
-			err = beaconDESC.SortByKeyDesc()
-		}
+		err := sortBeacon(beaconDESC, bc, IndexOrderDesc)
 		if err != nil {
 			beaconDESC.SetInitialized(false)
 			slog.Error("failed to sort keyBeaconDESC", "error", err)
@@ -3296,15 +3369,23 @@ func (s *swamp) addToValueBeacon(treasureInterface treasure.Treasure) {
 	if !s.valueBeaconASC.IsInitialized() {
 		return
 	}
+	// the pair indexes one value type; treasures with other content do not belong to it,
+	// and it must be re-sorted with the comparator of that type
+	s.valueBeaconMu.Lock()
+	bc := s.valueBeaconType
+	s.valueBeaconMu.Unlock()
+	if ct, ok := valueBeaconContentType(bc); !ok || treasureInterface.GetContentType() != ct {
+		return
+	}
 	s.valueBeaconASC.Add(treasureInterface)
-	err := s.valueBeaconASC.SortByValueInt64ASC()
+	err := sortBeacon(s.valueBeaconASC, bc, IndexOrderAsc)
 	if err != nil {
-		slog.Error("failed to sort valueIntBeaconASC", "error", err)
+		slog.Error("failed to sort valueBeaconASC", "error", err)
 	}
 	s.valueBeaconDESC.Add(treasureInterface)
-	err = s.valueBeaconDESC.SortByValueInt64DESC()
+	err = sortBeacon(s.valueBeaconDESC, bc, IndexOrderDesc)
 	if err != nil {
-		slog.Error("failed to sort valueIntBeaconDESC", "error", err)
+		slog.Error("failed to sort valueBeaconDESC", "error", err)
 	}
 }
 
